@@ -487,8 +487,8 @@ def inflight_step_released(chk: Check, rule: str = 'FUT-wait-release') -> None:
         if ex is None or not ex.is_async:
             continue
         ff = chk.ctx.facts.analyse(ex)
-        keys = sorted({ff.canon.key(a.value) for a in ast.walk(ex.node) if isinstance(a, ast.Await) and isinstance(a.value, (ast.Attribute, ast.Name))
-                       and ff.canon.key(a.value).startswith('self.')})
+        keys = sorted({ff.canon.key(a.value) for a in ast.walk(ex.node) if isinstance(a, ast.Await) and isinstance(a.value, (ast.Attribute, ast.Name, ast.Call))
+                       and ff.canon.key(a.value).startswith('self.') and '(' not in ff.canon.key(a.value)})
         for key in keys:
             n += 1
             # functions run when the state is left: every exit() along the MRO and what they call synchronously
